@@ -245,6 +245,7 @@ def check_keys(ctx, ex):
               sample={"creator==self": role.get(True), "else": role.get(False)})
     cmp_ok = "creator_node_id" in defs and A.norm(defs["creator_node_id"]).startswith("get_creator_node_id(self.node_id,")
     ctx.check("C12.D", "_extract_epr_info:creator-from-response", cmp_ok, "creator id is not obtained with get_creator_node_id(self.node_id, response)", repo.loc(m, fn), trivial=True)
+    check_role_flag(ctx)
     # retire
     hl = ex.methods.get("_handle_last_epr_pair")
     if hl is None:
@@ -438,6 +439,63 @@ def check_waits(ctx, ex):
                   sample={"handler": h, "quantifier": got})
 
 
+def check_role_flag(ctx):
+    """C12.D: the role of a response is read by comparing one of its fields with an integer literal (get_creator_node_id);
+    every place that builds a response must put an int-comparable value there.  A member of a plain Enum never equals
+    an int, so wrapping the flag in one sends every response to the creator side."""
+    repo = ctx.repo
+    qm = repo.module("netqasm.qlink_compat")
+    g = qm.functions.get("get_creator_node_id")
+    if g is None:
+        raise AnalysisError("qlink_compat.get_creator_node_id not found")
+    ctx.fn("qlink_compat.get_creator_node_id")
+    fields = {}
+    for n in ast.walk(g):
+        if isinstance(n, ast.Compare) and len(n.ops) == 1 and isinstance(n.ops[0], (ast.Eq, ast.NotEq)) and isinstance(n.left, ast.Attribute) \
+                and isinstance(n.comparators[0], ast.Constant) and isinstance(n.comparators[0].value, int) and not isinstance(n.comparators[0].value, bool):
+            fields[n.left.attr] = n.comparators[0].value
+    ctx.check("C12.D", "get_creator_node_id:role-read-from-an-integer-flag", len(fields) == 1,
+              f"get_creator_node_id compares {sorted(fields) or 'no field'} with an integer literal (expected exactly one flag field)", repo.loc(qm, g), trivial=True)
+    if len(fields) != 1:
+        return
+    flag = next(iter(fields))
+    producers = 0
+    for mod in repo.modules.values():
+        if mod.name.startswith("netqasm.examples"):
+            continue
+        for _m, qn, fn, cls in repo.iter_functions(mod.name):
+            if _m is not mod:
+                continue
+            for c in A.calls_in(fn, nested=True):
+                cn = (dotted(c.func) or "").split(".")[-1]
+                if not cn.startswith("LinkLayerOKType"):
+                    continue
+                v = A.kwargs_of(c).get(flag)
+                if v is None:
+                    continue
+                producers += 1
+                bad = None
+                for x in ast.walk(v):
+                    if isinstance(x, ast.Call):
+                        k = repo.resolve_class(mod, x.func)
+                        if k is not None and _plain_enum(repo, k):
+                            bad = k.name
+                    if isinstance(x, ast.Attribute):
+                        k = repo.resolve_class(mod, x.value)
+                        if k is not None and _plain_enum(repo, k):
+                            bad = k.name
+                ctx.check("C12.D", f"{mod.name.split('.')[-1]}.{qn}:{cn}.{flag}:int-comparable", bad is None,
+                          f"{qn} builds {cn}({flag}={src(v)}): a member of the plain Enum {bad} never compares equal to the integer {fields[flag]} that get_creator_node_id tests, "
+                          "so every such response is classified as belonging to a create request (wrong queue, wrong result array, wrong qubit)", repo.loc(mod, c),
+                          sample={"producer": qn, "value": src(v)})
+    ctx.anchor("C12.D", f"places building a response with an explicit {flag}", producers, 2)
+
+
+def _plain_enum(repo, k) -> bool:
+    names = {(b if isinstance(b, str) else b.name).split(".")[-1] for c in repo.mro(k) for b in c.bases}
+    return bool(names & {"Enum", "Flag"}) and not (names & {"IntEnum", "IntFlag", "int"})
+
+
 EXECUTOR_ROLES = {
     "_extract_epr_info": [
         "$creator_node_id=get_creator_node_id(self.node_id,response)",
@@ -487,10 +545,16 @@ def run(ctx):
     check_accounting(ctx, ex)
     check_busy(ctx, ex)
     check_waits(ctx, ex)
+    # 0 is an ordinary id / value / address: nothing int-valued may be tested by truthiness (nqsa/truth.py)
+    from .. import truth
+    truth.check(ctx, "C12.Z", ['netqasm.backend.executor', 'netqasm.qlink_compat'])
 
 
 X = "netqasm/backend/executor.py"
 SEEDS = [
+    dict(id="c12-role-flag-wrapped-in-plain-enum", file="netqasm/qlink_compat.py", expect="C12.D", construct="int-comparable", count=2,
+         old="            directionality_flag=response.directionality_flag,", new="            directionality_flag=EPRRole(response.directionality_flag),"),
+
     dict(id="c12-pop-last", file=X, expect="C12.Q", construct="_epr_create_requests", old="                self._epr_create_requests[request_key].pop(0)", new="                self._epr_create_requests[request_key].pop()"),
     dict(id="c12-peek-last", file=X, expect="C12.Q", construct="[key][-1]", old="        epr_cmd_data = requests[request_key][0]", new="        epr_cmd_data = requests[request_key][-1]"),
     dict(id="c12-insert-front", file=X, expect="C12.Q", construct="_epr_recv_requests", old="        self._epr_recv_requests[remote_node_id, purpose_id].append(", new="        self._epr_recv_requests[remote_node_id, purpose_id].insert(0, "),
